@@ -2471,6 +2471,7 @@ func (c *Ctx) checkTokenMacCoversFields() {
 	})
 	// what is written with binary.Write in Authenticate and the helpers it hands the layout to
 	whole := false
+	truncated := false
 	signed := map[string]bool{}
 	seen := map[*ssa.Function]bool{}
 	var scan func(fn *ssa.Function, d int)
@@ -2502,6 +2503,13 @@ func (c *Ctx) checkTokenMacCoversFields() {
 				}
 				return
 			}
+			// the serialised layout reaches the hash in full: a hash.Write of a proper sub-slice of the
+			// buffer (`buf.Bytes()[:signedSize]`) leaves the tail unsigned
+			if call.Call.IsInvoke() && call.Call.Method.Name() == "Write" && len(call.Call.Args) == 1 {
+				if sl, isSl := call.Call.Args[0].(*ssa.Slice); isSl && (sl.High != nil || sl.Low != nil) {
+					truncated = true
+				}
+			}
 			if g := call.Call.StaticCallee(); g != nil && core.InModule(g) {
 				for _, a := range call.Call.Args {
 					t := a.Type()
@@ -2526,7 +2534,10 @@ func (c *Ctx) checkTokenMacCoversFields() {
 	}
 	sortStrings(missing)
 	r.Check(len(used) >= 3, rule, "fields of the token layout read by Authenticate", "-", fmt.Sprintf("%d", len(used)), "fewer than three: anchor lost")
-	r.Check(whole || (len(signed) > 0 && len(missing) == 0), rule, fk(auth)+": the MAC is computed over every field that is used", c.P.Pos(auth.Pos()), "",
+	if truncated {
+		missing = append(missing, "(the hash is fed a sub-slice of the serialised layout)")
+	}
+	r.Check(!truncated && (whole || (len(signed) > 0 && len(missing) == 0)), rule, fk(auth)+": the MAC is computed over every field that is used", c.P.Pos(auth.Pos()), "",
 		fmt.Sprintf("the fields %v of a token are read but not part of the data the MAC is computed over: they can be altered on a genuine token without invalidating it", missing))
 }
 
@@ -2646,4 +2657,207 @@ func (c *Ctx) checkStoredMarksReportedClamped() {
 		}
 	}
 	r.Check(n >= 2, rule, "reports of stored marks", "-", fmt.Sprintf("%d", n), "fewer than two: anchor lost")
+}
+
+// checkTxHelpersUseTheTx (C18): a helper that is handed the open transaction (a parameter whose
+// type has Commit and Rollback) issues its statements on it: it makes no call on a value that can
+// open transactions itself (the connection pool: a type with a Begin* method) - such a statement
+// is committed on its own and survives the rollback of the operation it belongs to.
+func (c *Ctx) checkTxHelpersUseTheTx() {
+	r := c.R
+	const rule = "C18.2c-helpers-use-the-transaction"
+	isPool := func(t types.Type) bool {
+		ms := types.NewMethodSet(t)
+		for i := 0; i < ms.Len(); i++ {
+			if strings.HasPrefix(ms.At(i).Obj().Name(), "Begin") {
+				return true
+			}
+		}
+		return false
+	}
+	n := 0
+	for _, rel := range []string{"server/db/mysql", "server/db/postgres"} {
+		for _, fn := range c.P.ModFuncs {
+			if !core.InPkg(fn, rel) || fn.Parent() != nil {
+				continue
+			}
+			hasTx := false
+			for _, p := range fn.Params {
+				if hasMethods(p.Type(), "Commit", "Rollback") && !isPool(p.Type()) {
+					hasTx = true
+				}
+			}
+			if !hasTx {
+				continue
+			}
+			n++
+			r.Func(fk(fn))
+			var bad ssa.Instruction
+			for _, g := range core.WithClosures(fn) {
+				core.AllInstrs(g, func(in ssa.Instruction) {
+					ci, ok := in.(ssa.CallInstruction)
+					if !ok || bad != nil {
+						return
+					}
+					args := core.CallArgs(ci.Common())
+					if len(args) == 0 {
+						return
+					}
+					f := core.CalleeOf(ci.Common())
+					if f == nil || f.Type().(*types.Signature).Recv() == nil {
+						return
+					}
+					if isPool(args[0].Type()) && !hasMethods(args[0].Type(), "Commit", "Rollback") {
+						bad = in
+					}
+				})
+			}
+			r.Check(bad == nil, rule, fk(fn)+": statements go through the transaction it was given", c.P.Pos(fn.Pos()), "",
+				"a statement is issued on the connection pool"+posOf(c, bad)+" inside a helper of a transactional operation: it is committed at once and stays when the operation is rolled back")
+		}
+	}
+	r.Check(n >= 5, rule, "helpers receiving a transaction", "-", fmt.Sprintf("%d", n), "fewer than five: anchor lost")
+}
+
+// checkReplyGoesToItsRequest (C13): `m.sess.queueOut(XxxReply(m2, ...))` - the reply built from a
+// request is queued on that request's own session: m and m2 are the same message. (In a loop that
+// drains pending requests a reply built from the wrong variable reaches the right session with
+// another request's id.)
+func (c *Ctx) checkReplyGoesToItsRequest() {
+	r := c.R
+	const rule = "C13.4c-reply-goes-to-its-request"
+	sessF := c.field("server", "ClientComMessage", "sess")
+	queueOut := c.method("server", "Session", "queueOut")
+	if sessF == nil || queueOut == nil {
+		return
+	}
+	n := 0
+	for _, fn := range c.P.ModFuncs {
+		if !core.InPkg(fn, "server") {
+			continue
+		}
+		for _, q := range core.CallsTo(fn, queueOut) {
+			args := core.CallArgs(q.Common())
+			if len(args) != 2 {
+				continue
+			}
+			f, base := core.LoadedField(core.Strip(args[0]))
+			if f != sessF || base == nil {
+				continue
+			}
+			rc, ok := core.Strip(args[1]).(*ssa.Call)
+			if !ok {
+				continue
+			}
+			g := rc.Call.StaticCallee()
+			if g == nil || !core.InPkg(g, "server") || !isPtrToNamed(rc.Type(), "ServerComMessage") {
+				continue
+			}
+			var req ssa.Value
+			for i, p := range g.Params {
+				if isPtrToNamed(p.Type(), "ClientComMessage") && i < len(rc.Call.Args) {
+					req = rc.Call.Args[i]
+				}
+			}
+			if req == nil {
+				continue
+			}
+			n++
+			r.Func(fk(fn))
+			construct := fmt.Sprintf("%s: %s is queued on the session of the request it answers", fk(fn), g.Name())
+			if k := countSame(r, rule, construct); k > 0 {
+				construct = fmt.Sprintf("%s #%d", construct, k+1)
+			}
+			r.Check(sameValue(base, req, 0), rule, construct, c.pos(q), "",
+				"the reply is built from one request and queued on the session of another: the session receives an answer carrying a different request's id and topic")
+		}
+	}
+	r.Check(n >= 10, rule, "replies queued on a request's session", "-", fmt.Sprintf("%d", n), "fewer than ten: anchor lost")
+}
+
+// checkOnlineCountedWithAttach (C10): the per-user online counter counts attached foreground
+// sessions: it is incremented only where the session is attached (every path to the increment
+// passes Topic.addSession).
+func (c *Ctx) checkOnlineCountedWithAttach() {
+	r := c.R
+	const rule = "C10.3d-online-counted-with-attach"
+	onlineF := c.E().pudField("online")
+	addSession := c.method("server", "Topic", "addSession")
+	if onlineF == nil || addSession == nil {
+		return
+	}
+	n := 0
+	for _, fn := range c.funcsCalling(addSession, "server") {
+		isAttach := func(in ssa.Instruction) bool {
+			call, ok := in.(*ssa.Call)
+			return ok && core.CalleeOf(&call.Call) == addSession
+		}
+		for _, st := range core.StoresToField(fn, onlineF) {
+			b, ok := core.Strip(st.Val).(*ssa.BinOp)
+			if !ok || b.Op != token.ADD {
+				continue
+			}
+			n++
+			r.Func(fk(fn))
+			found, _ := core.PathAvoiding(fn, nil, func(in ssa.Instruction) bool { return in == ssa.Instruction(st) }, isAttach, nil)
+			construct := fk(fn) + ": online++ only after the session was attached"
+			if k := countSame(r, rule, construct); k > 0 {
+				construct = fmt.Sprintf("%s #%d", construct, k+1)
+			}
+			r.Check(!found, rule, construct, c.pos(st), "",
+				"the online counter is incremented on a path on which the session is not attached to the topic (a refused or self-banning {sub}): the count stays one too high, so the others are never told 'off'")
+		}
+	}
+	r.Check(n >= 1, rule, "increments of the online counter next to an attach", "-", fmt.Sprintf("%d", n), "none: anchor lost")
+}
+
+// checkP2PNameExactLength (C20): a p2p topic name is "p2p" + exactly the unpadded base64 of 16
+// bytes; text of any other length is not a name of the pair it happens to start with. The decoding
+// in ParseP2P (the reads of the two ids) is reachable only through an equality test of the length
+// of the text with a constant.
+func (c *Ctx) checkP2PNameExactLength() {
+	r := c.R
+	const rule = "C20.4f-p2p-name-exact-length"
+	fn := c.ssaFn("server/store/types", "ParseP2P")
+	if fn == nil {
+		return
+	}
+	r.Func(fk(fn))
+	g := core.Guard{Name: "len(text)==const", Match: func(a core.CondAtom) (bool, bool) {
+		if a.Op != token.EQL {
+			return false, false
+		}
+		isLen := func(v ssa.Value) bool {
+			call, ok := core.Strip(v).(*ssa.Call)
+			if !ok {
+				return false
+			}
+			b, ok := call.Call.Value.(*ssa.Builtin)
+			return ok && b.Name() == "len"
+		}
+		isK := func(v ssa.Value) bool { _, ok := core.Strip(v).(*ssa.Const); return ok }
+		if (isLen(a.X) && isK(a.Y)) || (isLen(a.Y) && isK(a.X)) {
+			return true, true
+		}
+		return false, false
+	}}
+	n := 0
+	core.AllInstrs(fn, func(in ssa.Instruction) {
+		call, ok := in.(*ssa.Call)
+		if !ok {
+			return
+		}
+		f := core.CalleeOf(&call.Call)
+		if f == nil || f.Name() != "Uint64" {
+			return
+		}
+		n++
+		saved := core.NoLift
+		core.NoLift = true
+		okG, cnt := core.GuardedBy(fn, call, g)
+		core.NoLift = saved
+		r.Check(okG && cnt[0] > 0, rule, fmt.Sprintf("%s: id #%d read only from text of the exact length", fk(fn), n), c.pos(call), "",
+			"the two ids are read from text whose length is not tested for equality with the length of a p2p name: a longer string decodes to the same pair as the canonical name")
+	})
+	r.Check(n >= 2, rule, "reads of the two ids in ParseP2P", "-", fmt.Sprintf("%d", n), "fewer than two: anchor lost")
 }
